@@ -59,8 +59,14 @@ func runC18(t *rapid.T) {
 	var blacklist []string
 	blIdx := -1
 	if simkit.Chance(t, "blacklist", 1, 3) {
-		blIdx = 3
-		blacklist = []string{ips[3]}
+		// the configured entry may be written in any notation of the address (the gates see the canonical form)
+		if simkit.Bool(t, "blacklistv6") {
+			blIdx = 2
+			blacklist = []string{[]string{"fd00::3", "fd00:0000:0000:0000:0000:0000:0000:0003", "FD00::3", "fd00:0:0:0:0:0:0:3"}[simkit.Int(t, "blnotation", 0, 3)]}
+		} else {
+			blIdx = 3
+			blacklist = []string{[]string{"10.0.0.9", "::ffff:10.0.0.9", "10.0.0.9"}[simkit.Int(t, "blnotation", 0, 2)]}
+		}
 	}
 	nEvents := simkit.Int(t, "nevents", 1, 14)
 	plan := make([]c18Event, nEvents)
